@@ -309,7 +309,10 @@ class TrajectoryCalc:
         # x = horizontal distance down range, y = drop, z = windage
         while zero_finding_error > _cZeroFindingAccuracy and iterations_count < _cMaxIterations:
             # Check height of trajectory at the zero distance (using current self.barrel_elevation)
-            t = self._integrate(shot_info, zero_distance, zero_distance, TrajFlag.NONE)[0]
+            # Take the row interpolated at exactly zero_distance.  (The last integration point, used before, lies up to one
+            # step beyond it; with an inclined sight line that biased the zero by tan(look_angle) times the overshoot and,
+            # because the overshoot jumps with the elevation, could keep the iteration from converging at all.)
+            t = self._integrate(shot_info, zero_distance, zero_distance, TrajFlag.RANGE)[-1]
             height = t.height >> Distance.Foot
             zero_finding_error = math.fabs(height - height_at_zero)
             if zero_finding_error > _cZeroFindingAccuracy:
